@@ -9,6 +9,7 @@ import (
 	"bytes"
 	"crypto/sha256"
 	"encoding/hex"
+	"fmt"
 	"hash/crc32"
 	"io"
 	"math/rand"
@@ -220,6 +221,12 @@ func run(c *eng.Ctx) error {
 	c.Stats["small_tables"] = len(tables) * nB
 
 	c.Traces(nA+nB+nC+nD+nE, func(t int, rng *rand.Rand) {
+		// a panic inside the code under test is recorded as an event no specification action explains (=> rejected, replayable)
+		defer func() {
+			if e := recover(); e != nil {
+				c.W.Ev("Panic", "what", fmt.Sprint(e))
+			}
+		}()
 		switch {
 		case t < nA:
 			L := t
